@@ -25,9 +25,10 @@ def sh(cmd, **kw):
     return subprocess.run(cmd, shell=True, env=ENV, stdout=subprocess.PIPE, stderr=subprocess.STDOUT, text=True, **kw)
 
 
-def build(scratch, race=False):
+def build(scratch, race=False, cli=False):
     t0 = time.time()
-    r = sh(f"{V}/prep.sh {scratch} {'race' if race else ''}")
+    # cli: also build <scratch>/vc20, the scipipe CLI of the tree under check (plans with "cli": True)
+    r = sh(f"{'VERIF_CLI=1 ' if cli else ''}{V}/prep.sh {scratch} {'race' if race else ''}")
     if r.returncode != 0:
         print(r.stdout)
         kind = "INSTRUMENT-ERROR" if "INSTRUMENT-ERROR" in r.stdout else "BUILD-ERROR"
@@ -58,6 +59,14 @@ def run_job(scratch, job, binary="vworker"):
         shutil.rmtree(job["base"], ignore_errors=True)
     res["job"] = job
     res["wall"] = time.time() - t0
+    if "replay divergence" in (res.get("error") or "") and not job.get("_retried"):
+        # determinism is checked on every re-execution; a divergence is a hard error of the
+        # machinery. One fresh attempt is made before giving up (reported in the evidence).
+        job["_retried"] = True
+        job.pop("base", None)
+        r2 = run_job(scratch, job, binary)
+        r2["retried_after"] = res["error"][:300]
+        return r2
     return res
 
 
@@ -110,7 +119,7 @@ def main():
         prop = a.prop
         plan = J.plan(prop, a.tier, seed)
         race = plan.get("race", False)
-        tb = build(scratch, race=race)
+        tb = build(scratch, race=race, cli=plan.get("cli", False))
         rdir = os.path.join(V, "replays", prop)
         shutil.rmtree(rdir, ignore_errors=True)
         ctx = {"scratch": scratch, "run_job": lambda job: run_job(scratch, job), "pool": a.jobs, "replay_dir": rdir, "tier": a.tier, "only": a.only, "seed": seed}
